@@ -208,7 +208,7 @@ theorem setLastUnion_del_obj (dev : Dev) : ∀ (ms : List Member) (kvs : List (B
     simp only [setLastUnion, hasKey, List.any_nil, Bool.not_false]
     rw [List.filter_eq_self.2 (by intro a _; rfl)]
   | .key k :: ms, kvs => by
-    simp only [setLastUnion, Bool.false_eq_true, if_false, writeKey]
+    simp only [setLastUnion, oneKey, Bool.false_and, Bool.false_eq_true, if_false, writeKey]
     rw [setLastUnion_del_obj dev ms, kvErase_eq_filter, filter_filter_key]
   | .idx i :: ms, kvs => by
     simp only [setLastUnion]
@@ -478,7 +478,7 @@ theorem setLastUnion_nostop (gen : Bool) (dev : Dev) (a : SetArg) : ∀ (ms : Li
 
 theorem setLast_nostop (gen : Bool) (dev : Dev) (a : SetArg) (f : Frag) (d : JV) : NoStop (setLast gen dev false a f d).st := by
   cases f with
-  | child k => cases d <;> simp [setLast, stopIf, NoStop]
+  | child k => cases d <;> simp [setLast, stopIf, oneKey, NoStop]
   | nth i =>
     cases d with
     | arr xs =>
